@@ -24,6 +24,14 @@ def metric_formula(m, theta, train, idx):
     return ((theta * 3 + idx * 5 + m * 17 + (1 if train else 0)) % 7) * 12
 
 
+def addl_formula(theta, train, idx):
+    return ((theta * 5 + idx * 3 + (2 if train else 0)) % 5) * 12
+
+
+def grad_formula(loss_id, theta, train, idx):
+    return ((theta * 3 + idx * 7 + loss_id * 5) % 9) - 4
+
+
 def plain_formula(k):
     return (k * 5) % 7 - 3
 
@@ -37,8 +45,12 @@ class ScriptNet(nn.Module):
         super().__init__()
         self.w = nn.Parameter(torch.tensor([float(theta0)] * n_out, dtype=torch.float64))
         self.NN = nn.Sequential()   # `save()` describes networks through their `.NN` attribute (as FCNN has)
+        # a buffer (like BatchNorm's running statistics): the parameter value at the most recent forward pass
+        self.register_buffer('seen', torch.tensor(float(theta0), dtype=torch.float64))
 
     def forward(self, x):
+        with torch.no_grad():
+            self.seen.copy_(self.w[0])
         return x[:, :1] * 0 + self.w
 
     def theta(self):
@@ -52,9 +64,16 @@ class World:
         self.events = []
         self.overrides = {}
         self.steps = 0
+        self.grads = []        # .grad of the first parameter as seen by each optimiser step
+        self.addl = False
 
 
 CURRENT_WORLD = [None]   # used when `load()` re-creates the optimiser from its class alone
+
+
+def _seen_grad(opt):
+    g = opt.param_groups[0]['params'][0].grad
+    return 0 if g is None else int(round(g.detach().reshape(-1)[0].item()))
 
 
 class PlainOpt(torch.optim.Optimizer):
@@ -71,6 +90,7 @@ class PlainOpt(torch.optim.Optimizer):
     def step(self, closure=None):
         k = self.world.steps
         d = plain_formula(k)
+        self.world.grads.append(_seen_grad(self))
         with torch.no_grad():
             for g in self.param_groups:
                 for p in g['params']:
@@ -100,6 +120,7 @@ class ClosureOpt(torch.optim.Optimizer):
                 for g in self.param_groups:
                     for p in g['params']:
                         p.add_(sh)
+        self.world.grads.append(_seen_grad(self))
         self.world.steps += 1
         th = int(round(self.param_groups[0]['params'][0].detach()[0].item()))
         self.world.events.append(f'Sclosure:{k}:{th}')
@@ -173,7 +194,10 @@ class Run:
                 th = self.nets[0].theta()
                 w.events.append(f'L{loss_id}:{th}:{1 if train else 0}:{idx}')
                 val = w.overrides.get((train, idx), loss_formula(loss_id, th, train, idx))
-                return (residuals * 0).sum() + sum((f * 0).sum() for f in funcs) + float(val)
+                # value `val`, gradient w.r.t. the (first) parameter exactly grad_formula(...): funcs[0] is 0*x + w row-wise
+                probe = funcs[0].reshape(-1)[0]
+                return (residuals * 0).sum() + sum((f * 0).sum() for f in funcs) + float(val) \
+                    + float(grad_formula(loss_id, th, train, idx)) * (probe - probe.detach())
             loss_fn.loss_id = loss_id
             return loss_fn
         self.make_loss = make_loss
@@ -205,11 +229,21 @@ class Run:
             elif kind == 'bundle':
                 self.solver = S.BundleSolver1D(eqs, t_min=0., t_max=1., theta_min=(0.,) * n_theta, theta_max=(1.,) * n_theta,
                                                eq_param_index=tuple(eq_param_index), **common)
+        # the solver's overridable additional_loss term (public extension point), active when world.addl is set
+        import types
+
+        def additional_loss(solver, residual, funcs, coords):
+            if not w.addl:
+                return 0
+            train, idx = decode_idx(coords[0])
+            return float(addl_formula(self.nets[0].theta(), train, idx))
+        self.solver.additional_loss = types.MethodType(additional_loss, self.solver)
         self.sched = {}
         self.call = 0
         self.out = []
         self.n_metrics = n_metrics
         self.sols = []
+        self.best_obs = []      # per epoch: (best w, best 'seen' buffer, optimiser kind, n_batches_valid)
 
     # ---- canonical dumps ------------------------------------------------------------------------
     def dump(self):
@@ -232,6 +266,7 @@ class Run:
         run = self
         w = self.world
         w.events = []
+        w.grads = []
         call = self.call
 
         class Sched:
@@ -252,11 +287,16 @@ class Run:
             def __call__(cb, solver):
                 w.events.append(f'C{call}:{solver.local_epoch}')
                 run.out.append('E ' + run.dump())
+                if solver.best_nets is not None:
+                    b = solver.best_nets[0]
+                    run.best_obs.append((b.theta(), int(round(b.seen.item())), 'closure' if isinstance(solver.optimizer, ClosureOpt) else 'plain',
+                                         solver.n_batches['valid'], call, solver.local_epoch))
         with warnings.catch_warnings():
             warnings.simplefilter('ignore')
             self.solver.fit(max_epochs, callbacks=[Sched()] + list(extra_callbacks) + [Dump()], tqdm_file=None)
         self.out.append('F agree=true ' + self.dump())
         self.out.append('LOG ' + ' '.join(w.events))
+        self.out.append('GRADS [' + ','.join(str(g) for g in w.grads) + ']')
         self.call += 1
 
 
@@ -270,6 +310,8 @@ def run_script(lines, **kw):
             continue
         if p[0] == 'init':
             run = Run(int(p[1]), p[2], int(p[3]), int(p[4]), int(p[5]), **kw)
+        elif p[0] == 'addl':
+            run.world.addl = p[1] == '1'
         elif p[0] == 'override':
             run.world.overrides[(p[1] == '1', int(p[2]))] = int(p[3])
         elif p[0] == 'sched':
